@@ -16,11 +16,11 @@ echo "$TESTS"
 echo "== demo with change (must fail)"
 timeout 900 bash "$OUT/demo.sh" "$WT" > /tmp/confirm-$ID.with.log 2>&1; WITH=$?
 echo "exit=$WITH"
-git stash -q
+git apply -R /tmp/confirm-$ID.diff   # not `git stash`: the stash is shared by all worktrees
 echo "== demo without change (must pass)"
 timeout 900 bash "$OUT/demo.sh" "$WT" > /tmp/confirm-$ID.without.log 2>&1; WITHOUT=$?
 echo "exit=$WITHOUT"
-git stash pop -q
+git apply /tmp/confirm-$ID.diff
 if [ "$TESTS" = "49 passed 0 failed" ] && [ $WITH -ne 0 ] && [ $WITHOUT -eq 0 ]; then
   D=/verif/seeded/$NAME; mkdir -p "$D"
   cp /tmp/confirm-$ID.diff "$D/patch.diff"; cp "$OUT/demo.sh" "$D/demo.sh"
@@ -32,7 +32,7 @@ except Exception: m={}
 m["property"]=pid
 m["confirmed"]={"where":"scratch worktree /tmp/mut-%s (git worktree of /repo HEAD)"%pid,
   "cargo_test_with_change":tests,"demo_exit_with_change":int(w),"demo_exit_without_change":int(wo),
-  "commands":["cargo test --workspace --no-fail-fast --offline","bash demo.sh <worktree> (with change)","git stash; bash demo.sh <worktree>; git stash pop"]}
+  "commands":["cargo test --workspace --no-fail-fast --offline","bash demo.sh <worktree> (with change)","git apply -R patch.diff; bash demo.sh <worktree>; git apply patch.diff"]}
 json.dump(m,open(dst,"w"),indent=1)
 EOF
   echo "CONFIRMED -> $D"
